@@ -217,7 +217,7 @@ def check(pid, tier, seed, update_expected=False):
             if not hs:
                 continue
             try:
-                d, dst = kanirun.make_scratch(REPO, swap_ptr16=g.get('ptr16', False))
+                d, dst = kanirun.make_scratch(REPO, swap_ptr16=g.get('ptr16', False), files=K.get('files'))
             except extract.Undecided as e:
                 return undecided(pid, tier, seed, t0, 'kani overlay: %s' % e)
             try:
@@ -297,7 +297,7 @@ def check(pid, tier, seed, update_expected=False):
                 fl['pair_results'].append({'note': 'a Kani obligation of this property already failed with a replayed input in this run'})
             if pairs and not have_kani_input:
                 try:
-                    d, dst = kanirun.make_scratch(REPO)
+                    d, dst = kanirun.make_scratch(REPO, files=(P.get('kani') or {}).get('files'))
                     try:
                         r = kanirun.run_kani(dst, pairs, jobs=8)
                         for h in pairs:
